@@ -38,6 +38,10 @@ type c15Out struct {
 	stored  []uint64
 	wHashes map[string]bool
 	cand    string
+	// second delivery of the same candidate after the getter recovered (only for one-off faults)
+	redone bool
+	reErr  error
+	rePan  string
 }
 
 func c15Exec(t *testing.T, run *vk.Run, c c15Case) (o c15Out, ok bool) {
@@ -92,6 +96,19 @@ func c15Exec(t *testing.T, run *vk.Run, c c15Case) (o c15Out, ok bool) {
 		o.fetches = n
 		o.pending = w.Sy.VerifPendingHashes()
 		o.stored = w.StoredHeights()
+		if c.FailAt != 0 && !c.Persist && o.done && o.pan == "" {
+			// the getter has recovered: the same candidate is gossiped again (by another peer)
+			budget += n
+			call2 := vk.Spawn(func() (*vk.H, error) {
+				ctx, cancel := context.WithTimeout(context.Background(), time.Minute)
+				defer cancel()
+				return nil, fn(ctx, cand)
+			})
+			for i := 0; i < 70 && !call2.Done(); i++ {
+				vk.Advance(time.Second)
+			}
+			o.redone, o.reErr, o.rePan = call2.Done(), call2.Err, call2.Panic
+		}
 		o.wHashes = map[string]bool{}
 		for _, h := range w.C[1:] {
 			o.wHashes[h.Hash().String()] = true
@@ -124,7 +141,7 @@ func TestC15(t *testing.T) {
 	}
 	maxD := uint64(vk.Pick(run, 12, 24))
 	run.Set("max_distance", maxD)
-	dl := vk.NewDeadline(vk.Pick(run, 10*time.Minute, 100*time.Minute))
+	dl := vk.NewDeadline(vk.Pick(run, 10*time.Minute, 45*time.Minute))
 	type base struct {
 		c c15Case
 	}
@@ -228,6 +245,18 @@ func c15Check(run *vk.Run, c c15Case, o c15Out, baseFetches int) {
 	}
 	if !wantAccept && o.err == nil {
 		viol("unverifiable-head-accepted", "accepted although %s", map[bool]string{true: "the candidate is forged", false: "a needed intermediate fetch failed"}[c.Forged])
+	}
+	if c.FailAt != 0 && !c.Persist && baseFetches >= 0 && c.FailAt <= baseFetches {
+		switch {
+		case !o.redone:
+			viol("redelivery-does-not-terminate", "the candidate was refused because fetch %d failed; delivered again after the getter recovered, the verifier did not return within a minute", c.FailAt)
+		case o.rePan != "":
+			viol("panic", "redelivery: %s", o.rePan)
+		case !c.Forged && o.reErr != nil:
+			viol("valid-head-refused-after-recovery", "the candidate was refused because fetch %d failed; delivered again after the getter recovered it is still refused: %v", c.FailAt, o.reErr)
+		case c.Forged && o.reErr == nil:
+			viol("unverifiable-head-accepted", "the forged candidate was accepted on redelivery")
+		}
 	}
 	inPending := false
 	for _, p := range o.pending {
